@@ -222,6 +222,9 @@ func handleUsers(params internal.HandlerFuncParams) ([]byte, error) {
 }
 
 func handleSetUser(params internal.HandlerFuncParams) ([]byte, error) {
+	if len(params.Command) < 3 {
+		return nil, errors.New(constants.WrongArgsResponse)
+	}
 	acl, ok := params.GetACL().(*ACL)
 	if !ok {
 		return nil, errors.New("could not load ACL")
